@@ -108,6 +108,83 @@ def fit (j : Json) : R Json := do
           ("len", nOut r.ev.len),
           ("epochs", .arr (r.ev.epochs.map iOut).toArray)])]
 
+/-- one stop source of `c18.fit_multi`: {"kind": "stopper", …the fields of `build`…} | {"kind": "request", "epochs": [e]} -/
+def parseSrc (j : Json) : R (Except PyErr (StopSrc Float)) := do
+  match (← jStr (← fld j "kind")) with
+  | "request" =>
+    let eps ← (← jArr (← fld j "epochs")).toList.mapM jInt
+    return .ok (.request eps)
+  | "stopper" =>
+    match (← build j) with
+    | .error e => return .error e
+    | .ok es => return .ok (.stopper es)
+  | k => .error s!"unknown stop source kind {k}"
+
+def lastsOut (l : List (StopSrc Float × Option Int)) : Json :=
+  .arr (l.map (fun p => match p.2 with | some e => iOut e | none => Json.null)).toArray
+
+/-- op `c18.fit_multi`: ONE evaluator (metric | observable, period `pe`, fresh) tracking the quantities `quantities`
+(each with its table of monitored values / variances by world), and the callback list `before ++ [evaluator] ++ after` of stop
+sources (stoppers of any configuration, callbacks requesting a stop at given epochs); an optional evaluator-only pre-run, then
+`fit` over `cands`.
+in : ek pe quantities:[{name, vals:[[kind,bits]], vars?:[[kind,bits]]}] before:[src] after:[src] pre:[[e,w]] cands:[[e,w]]
+out: {"ok": {stop, fired, lasts_before, lasts_after, len, epochs}} | {"error": kind} (a constructor or run-time error) -/
+def fitMulti (j : Json) : R Json := do
+  let pe ← jInt (← fld j "pe")
+  let ek ← parseEk (← jStr (← fld j "ek"))
+  let zero : Num Float := ⟨.py, 0.0⟩
+  let qs ← (← jArr (← fld j "quantities")).toList.mapM (fun q => do
+    let name ← jStr (← fld q "name")
+    let vals ← (← jArr (← fld q "vals")).mapM parseNum
+    let vars ← (match fldOpt q "vars" with | some x => do (← jArr x).mapM parseNum | none => pure #[])
+    return (name, vals, vars))
+  let parseCands (x : Json) : R (List (Int × Nat)) := do
+    (← jArr x).toList.mapM (fun p => do
+      let pa ← jArr p
+      if pa.size != 2 then .error "cand = [epoch, w]"
+      return (← jInt pa[0]!, ← jNat pa[1]!))
+  let cands ← parseCands (← fld j "cands")
+  let pre ← (match fldOpt j "pre" with | some x => parseCands x | none => pure [])
+  let parseSrcs (x : Json) : R (Except PyErr (List (StopSrc Float × Option Int))) := do
+    let l ← (← jArr x).toList.mapM parseSrc
+    return l.foldr (fun s acc => match s, acc with
+      | .error e, _ => .error e
+      | .ok _, .error e => .error e
+      | .ok v, .ok r => .ok ((v, none) :: r)) (.ok [])
+  let before ← parseSrcs (← fld j "before")
+  let after ← parseSrcs (← fld j "after")
+  match before, after with
+  | .error e, _ => return errJ e
+  | _, .error e => return errJ e
+  | .ok before, .ok after =>
+    let ev0 : AnyEval Nat Float :=
+      match ek with
+      | .observable =>
+        let c : ObservableEvaluator Nat (Num Float) := ⟨pe, qs.map (·.1), fun w =>
+          qs.map (fun q => (q.1, [("mean", q.2.1[w]?.getD zero), ("variance", q.2.2[w]?.getD zero),
+                   ("std_error", zero), ("num_samples", zero)])), false⟩
+        .observable c c.init
+      | _ =>
+        let c : MetricEvaluator Nat (Num Float) := ⟨pe, qs.map (fun q => (q.1, fun w => q.2.1[w]?.getD zero)), false⟩
+        .metric c c.init
+    let evPre : Except PyErr (AnyEval Nat Float) :=
+      pre.foldl (fun acc ew => match acc with
+        | .error e => .error e
+        | .ok ev => ev.onEpochEnd ew.1 ew.2) (.ok ev0)
+    match evPre with
+    | .error e => return errJ e
+    | .ok ev1 =>
+      match fitRunMulti ⟨ev1, before, after, false, []⟩ cands with
+      | .error e => return errJ e
+      | .ok r =>
+        return Json.mkObj [("ok", Json.mkObj [
+          ("stop", .bool r.stop),
+          ("fired", .arr (r.fired.map iOut).toArray),
+          ("lasts_before", lastsOut r.before),
+          ("lasts_after", lastsOut r.after),
+          ("len", nOut r.ev.len),
+          ("epochs", .arr (r.ev.epochs.map iOut).toArray)])]
+
 /-- op `c18.norm`: `criterion.strip().lower()` -/
 def norm (j : Json) : R Json := do
   let l ← (← jArr (← fld j "strings")).toList.mapM jStr
@@ -117,6 +194,7 @@ def handle (op : String) (j : Json) : Option (R Json) :=
   match op with
   | "c18.new" => some (new j)
   | "c18.fit" => some (fit j)
+  | "c18.fit_multi" => some (fitMulti j)
   | "c18.norm" => some (norm j)
   | _ => none
 
